@@ -60,64 +60,74 @@ def check(repo: Repo, R) -> None:
         stores = [st for st in au.stmts(fa.node) if isinstance(st, ast.Assign) and isinstance(st.targets[0], ast.Subscript) and ast.unparse(st.targets[0].slice) == f"{val}.name"]
         if len(stores) < 2:
             raise AnalysisError(f"idiom-unknown: container stores in {fa.site}")
-        first_store = min(st.lineno for st in stores)
-        evicted: Set[str] = set()
-        ev_line = None
-        for lp in au.walk_no_nested(fa.node):
-            if isinstance(lp, ast.For) and isinstance(lp.iter, (ast.Tuple, ast.List)) and pat.find(f"$C.pop({val}.name)", lp) + pat.find(f"$C.pop({val}.name, None)", lp):
-                for e in lp.iter.elts:
-                    d = ast.unparse(e)
-                    if d.startswith(arg + "."):
-                        evicted.add(d.split(".", 1)[1])
-                ev_line = lp.lineno
-        # the eviction must run whenever the name is held by a *different* object: no further condition
-        guard_ok = True
-        guard_txt = "unconditional"
-        ev_loops = [lp for lp in au.walk_no_nested(fa.node) if isinstance(lp, ast.For) and isinstance(lp.iter, (ast.Tuple, ast.List)) and pat.find(f"$C.pop({val}.name)", lp) + pat.find(f"$C.pop({val}.name, None)", lp)]
-        if ev_loops:
-            from .shared import path_conditions, conds_imply, parse_cond, prov_text
+        from .shared import path_conditions, conds_imply, parse_cond
 
-            defs = au.local_defs(fa.node)
-            oldn = [k for k, v in defs.items() if ast.unparse(v) in (f"{arg}.namespace.get({val}.name, None)", f"{arg}.namespace.get({val}.name)")]
-            o = oldn[0] if oldn else "old"
-            ev_pc = path_conditions(fa.node, ev_loops[0])
-            st_pc = path_conditions(fa.node, stores[0])
-            # whenever the insertion is reached and another object holds the name, the eviction has run
-            holds = conds_imply(list(st_pc) + [(parse_cond(f"{o} is None"), False), (parse_cond(f"{o} is {val}"), False)], list(ev_pc))
-            guard_ok = bool(oldn) and holds is True
-            guard_txt = " and ".join(("" if pol else "not ") + f"({ast.unparse(t)})" for t, pol in ev_pc) or "unconditional"
-            # and the test inside the loop removes exactly the old holder
-            inner = [n for n in ast.walk(ev_loops[0]) if isinstance(n, ast.If)]
-            if inner:
-                lv = ast.unparse(ev_loops[0].target)
-                it = ast.unparse(inner[0].test)
-                pops_in_body = bool(pat.find(f"{lv}.pop({val}.name)", ast.Module(inner[0].body, [])))
-                guard_ok = guard_ok and pops_in_body and it in (f"{lv}.get({val}.name) is {o}", f"{o} is {lv}.get({val}.name)", f"{val}.name in {lv}")
-                guard_txt += f"; per container: {it}"
-        # an object already held under another key leaves that key (namespace and per-kind views) before it is stored again
-        moved = False
-        for lp in au.walk_no_nested(fa.node):
-            if isinstance(lp, ast.For) and isinstance(lp.iter, ast.ListComp) and len(lp.iter.generators) == 1:
-                g_ = lp.iter.generators[0]
-                if ast.unparse(g_.iter) == f"{arg}.namespace.items()" and isinstance(g_.target, ast.Tuple) and len(g_.target.elts) == 2:
-                    kk, hh = [ast.unparse(x) for x in g_.target.elts]
-                    conds_ = {ast.unparse(c) for c in (g_.ifs[0].values if len(g_.ifs) == 1 and isinstance(g_.ifs[0], ast.BoolOp) and isinstance(g_.ifs[0].op, ast.And) else g_.ifs)}
-                    lv_ = ast.unparse(lp.target)
-                    pops_ns = bool(pat.find(f"{arg}.namespace.pop({lv_})", lp))
-                    views = set()
-                    for il in [x for x in ast.walk(lp) if isinstance(x, ast.For) and x is not lp and isinstance(x.iter, (ast.Tuple, ast.List))]:
-                        if pat.find(f"{ast.unparse(il.target)}.pop({lv_})", il):
-                            views |= {ast.unparse(e).split(".", 1)[1] for e in il.iter.elts if ast.unparse(e).startswith(arg + ".")}
-                    moved = conds_ == {f"{hh} is {val}", f"{kk} != {val}.name"} and ast.unparse(lp.iter.elt) == kk and pops_ns and set(kinds) <= views and shared_before(fa.node, lp, stores[0])
+        # every removal `<container>.pop(<key>)` of the function, as (container, key, conditions, loop it runs in) — with a
+        # loop over a literal tuple of containers written out per container, and locals replaced by what reaches them
+        effects = pop_effects(fa, arg)
+        NS_GET = (f"{arg}.namespace.get({val}.name)", f"{arg}.namespace.get({val}.name, None)")
+
+        def ctext(t):
+            return ast.unparse(t)
+
+        # (a) a re-used name: its previous holder leaves every per-kind view
+        evicted: Set[str] = set()
+        guard_ok = True
+        guard_txt = []
+        first_store = stores[0]
+        for cont, key, conds, site, loop in effects:
+            if key != f"{val}.name" or not cont.startswith(arg + ".") or cont == f"{arg}.namespace":
+                continue
+            kind = cont.split(".", 1)[1]
+            # conditions: the view holds the previous holder of the name; the previous holder exists and is another object
+            rest = []
+            per_view = False
+            for t, pol in conds:
+                tt = ctext(t)
+                if pol and any(tt in (f"{cont}.get({val}.name) is {g_}", f"{g_} is {cont}.get({val}.name)", f"{cont}.get({val}.name, None) is {g_}") for g_ in NS_GET):
+                    per_view = True
+                elif pol and tt == f"{val}.name in {cont}":
+                    per_view = True
+                else:
+                    rest.append((t, pol))
+            # whenever the insertion is reached and another object holds the name, this removal has run
+            st_pc = shared.resolved_conditions(fa.node, path_conditions(fa.node, first_store))
+            holds = conds_imply(list(st_pc) + [(parse_cond(f"{NS_GET[0]} is None"), False), (parse_cond(f"{NS_GET[0]} is {val}"), False)], [(parse_cond(ctext(t).replace(NS_GET[1], NS_GET[0])), pol) for t, pol in rest])
+            if per_view and holds is True and shared_before(fa.node, site, first_store):
+                evicted.add(kind)
+            else:
+                guard_ok = False
+                guard_txt.append(f"{cont}: " + (" and ".join(("" if pol else "not ") + f"({ctext(t)})" for t, pol in conds) or "unconditional"))
+        # (b) an object already held under another key leaves that key (namespace and per-kind views) before it is stored again
+        moved_views: Set[str] = set()
+        ns_popped = False
+        for cont, key, conds, site, loop in effects:
+            if loop is None or not isinstance(loop.iter, ast.ListComp) or len(loop.iter.generators) != 1:
+                continue
+            g_ = loop.iter.generators[0]
+            if ast.unparse(g_.iter) != f"{arg}.namespace.items()" or not (isinstance(g_.target, ast.Tuple) and len(g_.target.elts) == 2):
+                continue
+            kk, hh = [ast.unparse(x) for x in g_.target.elts]
+            conds_ = {ast.unparse(c) for c in (g_.ifs[0].values if len(g_.ifs) == 1 and isinstance(g_.ifs[0], ast.BoolOp) and isinstance(g_.ifs[0].op, ast.And) else g_.ifs)}
+            lv_ = ast.unparse(loop.target)
+            if conds_ != {f"{hh} is {val}", f"{kk} != {val}.name"} or ast.unparse(loop.iter.elt) != kk or key != lv_ or not shared_before(fa.node, loop, first_store):
+                continue
+            inner = [(ctext(t), pol) for t, pol in conds[len(shared.resolved_conditions(fa.node, path_conditions(fa.node, loop))):]]
+            if cont == f"{arg}.namespace" and not inner:
+                ns_popped = True
+            elif cont.startswith(arg + ".") and all(pol and tt in (f"{cont}.get({lv_}) is {val}", f"{cont}.get({lv_}, None) is {val}", f"{lv_} in {cont}") for tt, pol in inner):
+                moved_views.add(cont.split(".", 1)[1])
+        moved = ns_popped and set(kinds) <= moved_views
         R.check(moved, rule, key_of(fa, f"{cls}-one-key-per-object"), fa.site,
                 f"{cls}._add: an object that is already held under another name is removed from that key (namespace and every per-kind view) before it is stored under its new one: {moved}",
                 why="`m.a = sig; m.b = sig` leaves the signal (now named `b`) under both keys: get('a') returns an object of another name and the module declares signal `b` twice")
         # alternative: reject re-use outright
         rejects = any(isinstance(n, ast.If) and ast.unparse(n.test) in (f"{val}.name in {arg}.namespace",) and au.raises(n.body, noret) for n in au.walk_no_nested(fa.node))
-        ok = rejects or (set(kinds) <= evicted and ev_line is not None and shared_before(fa.node, ev_loops[0], stores[0]) and guard_ok)
+        ok = rejects or (set(kinds) <= evicted and guard_ok)
+        ev_loops = [site for cont, key, conds, site, loop in effects if key == f"{val}.name" and cont != f"{arg}.namespace"]
         R.check(ok, rule, key_of(fa, cls), fa.site,
                 f"{cls}._add: per-kind containers {kinds}; before inserting, a re-used name is removed from {sorted(evicted) or 'none of them'}"
-                + (" (or re-use is rejected)" if rejects else "") + f"; eviction runs under: {guard_txt}" + ("" if ok else f" — MISSING containers {sorted(set(kinds) - evicted)}" if set(kinds) - evicted else " — the eviction is skipped in some case where another object holds the name"),
+                + (" (or re-use is rejected)" if rejects else "") + ("" if ok else f" — MISSING containers {sorted(set(kinds) - evicted)}" if set(kinds) - evicted else f" — the eviction is skipped in some case where another object holds the name: {guard_txt[:2]}"),
                 why="assigning an instance to a name that held a signal leaves the signal in the signals view: get(name) and the views disagree, and both objects are exported")
 
         # ---- 2 reserved names complete
@@ -214,3 +224,37 @@ def check(repo: Repo, R) -> None:
     R.floor("C18.2-reserved-names-complete", 6)
     R.floor("C18.3-module-bundle-siblings", 10)
     R.floor("C18.4-insert-discipline", 14)
+
+
+
+def pop_effects(fa: FuncInfo, arg: str):
+    """[(container text, key text, resolved conditions, call site, enclosing loop or None)] for every `<c>.pop(<k>[, d])` in fa.
+    A loop over a literal tuple of containers contributes one effect per element (loop variable written out); locals
+    (a per-view temporary, the previous holder `old`) are replaced by the definitions that reach the call."""
+    import copy as _c
+
+    out = []
+    fn = fa.node
+    for call in au.calls_in(fn):
+        if not (isinstance(call.func, ast.Attribute) and call.func.attr == "pop" and call.args):
+            continue
+        loop = shared.enclosing(fn, call, (ast.For,))
+        subst_sets = [dict()]
+        outer_loop = loop
+        if loop is not None and isinstance(loop.iter, (ast.Tuple, ast.List)) and isinstance(loop.target, ast.Name):
+            subst_sets = [{loop.target.id: e} for e in loop.iter.elts]
+            outer_loop = shared.enclosing(fn, loop, (ast.For,))
+        pcs = shared.path_conditions(fn, call)
+        for sub in subst_sets:
+            def S(e):
+                class T(ast.NodeTransformer):
+                    def visit_Name(self, node):
+                        return _c.deepcopy(sub[node.id]) if node.id in sub and isinstance(node.ctx, ast.Load) else node
+                return ast.fix_missing_locations(T().visit(_c.deepcopy(e)))
+            recv_alts = shared.alternatives(fn, call.func.value, [], at=call)
+            recv = S(recv_alts[0][0]) if len(recv_alts) == 1 else S(call.func.value)
+            key_alts = shared.alternatives(fn, call.args[0], [], at=call)
+            key = S(key_alts[0][0]) if len(key_alts) == 1 and isinstance(call.args[0], ast.Name) and shared.enclosing(fn, call, (ast.For,)) is None else S(call.args[0])
+            conds = [(S(t), pol) for t, pol in shared.resolved_conditions(fn, pcs)]
+            out.append((ast.unparse(recv), ast.unparse(key), conds, call, outer_loop if sub else loop))
+    return out
